@@ -88,8 +88,16 @@ def known_findings(work, res, tier, proofs_ok):
                       {"broken": "C14-T reproduction", "ops": T_OPS, "trace": trace, "verdict": spec}, concrete=False)
 
 
+# evtrace: every single synchronisation action of real concurrent executions (event-logging twin of the scratch copy,
+# harness/evinst) replayed step by step on the transition systems the theorems are about: each tokens.Add of LimitPool
+# with its returned value, each Lock/Unlock/RLock/RUnlock/TryLock/TryRLock of SegmentKeysLock with the index of the
+# mutex it was performed on (Driver/Ev/SyncX.lean).  Must come after the syncx correspondence (which installs the
+# stub hooks when the white-box hooks no longer compile).
+EVTRACE = dict(harness="evtrace", area="evtrace", name="evtrace-syncx", evinst=True, gen_args=["-targets", "limit,seg"], env=ENV)
+
+
 def CHECK(work, res, tier):
-    corrs = [dict(harness="syncx", area="syncx", env=ENV)]
+    corrs = [dict(harness="syncx", area="syncx", env=ENV), EVTRACE]
     if tier == "thorough":
         # the same scripted cases and stress scenarios with the race detector on: the owner-variable
         # probe inside the critical sections is a plain variable, so broken exclusion is also a race report
@@ -108,7 +116,13 @@ MANIFEST = dict(
           "read locks are shared, TryLock succeeds whenever nothing is held. A negative witness is proved for the known corner "
           "C14-T (maxTokens = 2^31+1 is truncated to int32 and no Get ever succeeds). The models are acceptors for traces of the real "
           "code (token counter, factory calls and segment index observed through hooks, with a black-box stub fallback) and for "
-          "concurrent stress summaries (outstanding high-water mark, quiescent conservation, owner-variable probe) on every run."),
+          "concurrent stress summaries (outstanding high-water mark, quiescent conservation, owner-variable probe) on every run; "
+          "and for synchronisation-event traces: an instrumented twin of the scratch copy (harness/evinst) logs every tokens.Add "
+          "(with the value it returned) and every Lock/Unlock/RLock/RUnlock/TryLock/TryRLock (with the position in s.locks of the "
+          "mutex it was performed on and the Try answer) of concurrent scenarios in an order that is a legal order of the real "
+          "execution, and the models' step functions must accept the log action by action (each logged action is the next action of "
+          "that thread, ENABLED in the model's state; counter values, FNV-1a segment indices and call results equal the model's) - "
+          "driver area evtrace."),
     note=COMMON_NOTE + " Partial: the LimitPool theorems assume 0 <= maxTokens < 2^31 (known finding C14-T: the constructor truncates "
          "int to int32; reproduced on the real code on every run) and at most 2^31 goroutines (int32 wrap); spurious Get failures "
          "under contention are allowed by the property and exhibited as a reachable schedule; sync.RWMutex / sync.Pool / "
